@@ -3,6 +3,8 @@
 (* Lines (ndjson, TRACE_FILE; text as code point arrays, times in ticks, -1 absent, -2 epoch):        *)
 (*  [t, i, op, a, sent, sent2, found, got, proj, exc]                                                  *)
 (*   op   = "init" | "req" | "redir" | "cset" | "cdel" | "cget" | "tick"                               *)
+(*          | "reqm" / "setcm" / "setc": a response with several Set-Cookie headers (request + first   *)
+(*          header, middle headers, last header; the jar is projected after the last one)              *)
 (*   a    = [host, rp, rp2, https, has_sc, name, val, domattr, pathattr, ma, exp, secure, httponly,    *)
 (*           ss, dom, path, oo]   (every field always present)                                         *)
 (*   sent / sent2 = (name, value) pairs request.cookies showed in the (follow-up) request              *)
@@ -15,7 +17,8 @@ Lines == ndJsonDeserialize(IOEnv.TRACE_FILE)
 VARIABLES l, jar, now, dead
 vars == <<l, jar, now, dead>>
 
-TICK == 3600
+CONSTANT Tick          \* seconds per time unit of the recorded trace (3600 for model-driven histories, 1 for repository-test sessions)
+TICK == Tick
 ToSet(s) == {s[i] : i \in 1..Len(s)}
 SCof(a) == [name |-> a.name, val |-> a.val, domattr |-> a.domattr, pathattr |-> a.pathattr, ma |-> a.ma, exp |-> a.exp,
             secure |-> a.secure, httponly |-> a.httponly, ss |-> a.ss]
@@ -23,13 +26,14 @@ CAof(a) == [name |-> a.name, val |-> a.val, dom |-> a.dom, path |-> a.path, oo |
             secure |-> a.secure, httponly |-> a.httponly, ss |-> a.ss]
 PostJar(r) == LET a == r.a IN
   CASE r.op = "init" -> {}
-    [] r.op = "req" /\ a.has_sc -> Update(jar, FromResponse(a.host, a.rp, SCof(a), now), SCof(a))
+    [] r.op \in {"req", "reqm"} /\ a.has_sc -> Update(jar, FromResponse(a.host, a.rp, SCof(a), now), SCof(a))
+    [] r.op \in {"setc", "setcm"} -> Update(jar, FromResponse(a.host, a.rp, SCof(a), now), SCof(a))
     [] r.op = "redir" -> Update(jar, FromResponse(a.host, a.rp, SCof(a), now), SCof(a))
     [] r.op = "cset" -> Update(jar, FromClient(CAof(a), now), CAof(a))
     [] r.op = "cdel" -> Remove(jar, <<a.dom, a.path, a.name>>)
     [] OTHER -> jar
 PostNow(r) == IF r.op = "init" THEN 1 ELSE IF r.op = "tick" THEN now + 1 ELSE now
-OutOfContract(r) == r.op \in {"req", "redir"} /\ r.a.has_sc /\ ~InContract(r.a.host, SCof(r.a))
+OutOfContract(r) == r.op \in {"req", "redir", "reqm", "setc", "setcm"} /\ r.a.has_sc /\ ~InContract(r.a.host, SCof(r.a))
 
 SameAttrs(c, p) == /\ p.val = c.val /\ p.ho = c.ho /\ p.secure = c.secure /\ p.httponly = c.httponly /\ p.ss = c.ss
                    /\ p.ma = (IF c.ma = ABSENT THEN ABSENT ELSE c.ma * TICK)
@@ -58,15 +62,17 @@ Verdict(r) == LET a == r.a pj == PostJar(r) IN
          [] r.op = "redir" -> IF SendClause(jar, a.host, a.rp, a.https, now, ToSet(r.sent)) # "ok" THEN SendClause(jar, a.host, a.rp, a.https, now, ToSet(r.sent))
                               ELSE IF SendClause(pj, a.host, a.rp2, a.https, now, ToSet(r.sent2)) # "ok" THEN SendClause(pj, a.host, a.rp2, a.https, now, ToSet(r.sent2))
                               ELSE StoredClause(pj, now, ToSet(r.proj))
+         [] r.op = "reqm" -> SendClause(jar, a.host, a.rp, a.https, now, ToSet(r.sent))   \* further Set-Cookie headers of the same response follow
+         [] r.op = "setcm" -> "ok"
          [] r.op = "cget" -> GetClause(r)
          [] OTHER -> StoredClause(pj, PostNow(r), ToSet(r.proj))
 
 \* drift: the implementation-shaped sender and store predict the observations exactly
 Drift(r) == LET a == r.a pj == PostJar(r) IN
   \/ r.op = "init" \/ r.exc # ""
-  \/ /\ (r.op \in {"req", "redir"} => ToSet(r.sent) = ImplSend(jar, a.host, a.rp))
+  \/ /\ (r.op \in {"req", "redir", "reqm"} => ToSet(r.sent) = ImplSend(jar, a.host, a.rp))
      /\ (r.op = "redir" => ToSet(r.sent2) = ImplSend(pj, a.host, a.rp2))
-     /\ {PKey(p) : p \in ToSet(r.proj)} = {KeyOf(c) : c \in pj}
+     /\ (r.op \notin {"reqm", "setcm"} => {PKey(p) : p \in ToSet(r.proj)} = {KeyOf(c) : c \in pj})
 
 Init == l = 1 /\ jar = {} /\ now = 1 /\ dead = FALSE
 Next == /\ l <= Len(Lines)
